@@ -8,6 +8,7 @@ import (
 	"bytes"
 	"context"
 	"encoding/json"
+	"errors"
 	"fmt"
 	"io/fs"
 	"math/rand"
@@ -25,7 +26,9 @@ import (
 	experimentalsys "github.com/tetratelabs/wazero/experimental/sys"
 	"github.com/tetratelabs/wazero/experimental/sysfs"
 	"github.com/tetratelabs/wazero/internal/wasm"
+	"github.com/tetratelabs/wazero/sys"
 	"github.com/tetratelabs/wazero/verifharness/common"
+	"github.com/tetratelabs/wazero/verifharness/wb"
 )
 
 var emptyWasm = []byte{0, 'a', 's', 'm', 1, 0, 0, 0}
@@ -33,14 +36,34 @@ var emptyWasm = []byte{0, 'a', 's', 'm', 1, 0, 0, 0}
 // memWasm has one memory of one page, so that instantiation allocates through the experimental allocator.
 var memWasm = []byte{0, 'a', 's', 'm', 1, 0, 0, 0, 5, 3, 1, 0, 1}
 
+// startExitWasm imports xenv.boom and calls it from its exported _start; mem: with a one-page memory.
+func startExitWasm(mem bool) []byte {
+	m := wb.New()
+	boom := m.ImportFunc("xenv", "boom", nil, nil)
+	if mem {
+		one := uint32(1)
+		m.Memory(1, &one, "")
+	}
+	m.AddFunc(wb.Func{Body: wb.Call(boom), Export: "_start"})
+	return m.Build()
+}
+
+// addBoom instantiates the host module whose function ends the caller's _start with an exit error, closing nothing.
+func addBoom(ctx context.Context, rt wazero.Runtime) error {
+	_, err := rt.NewHostModuleBuilder("xenv").NewFunctionBuilder().WithFunc(func() { panic(sys.NewExitError(3)) }).Export("boom").Instantiate(ctx)
+	return err
+}
+
 // ------------------------------------------------------------------------------------ replay
 
 type hrec struct {
 	Op   string `json:"op"`
 	Name string `json:"name"`
 	Want bool   `json:"want"`
-	Res  string `json:"res"`
-	M    int    `json:"m"`
+	// Start: "exit" = the module's exported _start calls a host function that panics with an exit error without closing anything
+	Start string `json:"start"`
+	Res   string `json:"res"`
+	M     int    `json:"m"`
 }
 
 type snap struct {
@@ -113,6 +136,10 @@ func classify(err error) string {
 	if err == nil {
 		return "ok"
 	}
+	var ee *sys.ExitError
+	if errors.As(err, &ee) {
+		return "exit"
+	}
 	s := err.Error()
 	switch {
 	case bytes.Contains([]byte(s), []byte("has already been instantiated")):
@@ -146,6 +173,15 @@ func replayOne(id int, b *behaviour, engine string) common.Result {
 		res.AddFail("infra", err.Error())
 		return res
 	}
+	if err := addBoom(ctx, rt); err != nil {
+		res.AddFail("infra", err.Error())
+		return res
+	}
+	compiledExit, err := rt.CompileModule(ctx, startExitWasm(true))
+	if err != nil {
+		res.AddFail("infra", err.Error())
+		return res
+	}
 	mods := map[int]api.Module{}
 	fired := map[int]*counter{}
 	held := map[int]*resources{} // by model id, failed instantiations included
@@ -165,9 +201,13 @@ func replayOne(id int, b *behaviour, engine string) common.Result {
 			rs := &resources{failClose: k%2 == 0}
 			ictx = experimental.WithMemoryAllocator(ictx, rs)
 			mc := wazero.NewModuleConfig().WithName(h.Name).WithFSConfig(wazero.NewFSConfig().(sysfs.FSConfig).WithSysFSMount(resFS{r: rs}, "/"))
+			code := compiled
+			if h.Start == "exit" {
+				code = compiledExit
+			}
 			got = protect(func() string {
 				var err error
-				mod, err = rt.InstantiateModule(ictx, compiled, mc)
+				mod, err = rt.InstantiateModule(ictx, code, mc)
 				return classify(err)
 			})
 			if h.M > 0 {
@@ -411,10 +451,16 @@ func (tr *tracer) hook(e wasm.VerifEvent) {
 	case "unlist":
 		tr.line(map[string]interface{}{"ev": "unlist", "t": t, "m": id(e.Mod), "owner": id(e.Owner)})
 	case "lookup":
+		if e.Name == "xenv" {
+			return // import resolution of the failing-start module, not an operation of the registry under test
+		}
 		tr.line(map[string]interface{}{"ev": "lookup", "t": t, "name": e.Name, "m": id(e.Mod)})
 	case "storeclose":
 		tr.line(map[string]interface{}{"ev": "storeclose", "t": t})
 	case "res":
+		if e.Mod != nil && tr.modIDs[e.Mod] == 0 {
+			return // a module the driver's threads did not create (the host module of the failing start functions)
+		}
 		tr.line(map[string]interface{}{"ev": "res", "t": t, "m": id(e.Mod), "fired": e.Notifier})
 	}
 }
@@ -422,6 +468,12 @@ func (tr *tracer) hook(e wasm.VerifEvent) {
 func (tr *tracer) begin(t string, op string, name string, want bool, m int) {
 	tr.mu.Lock()
 	tr.line(map[string]interface{}{"ev": "begin", "t": t, "op": op, "name": name, "want": want, "m": m})
+	tr.mu.Unlock()
+}
+
+func (tr *tracer) beginInst(t, name string, want bool, start string) {
+	tr.mu.Lock()
+	tr.line(map[string]interface{}{"ev": "begin", "t": t, "op": "inst", "name": name, "want": want, "m": 0, "start": start})
 	tr.mu.Unlock()
 }
 
@@ -449,6 +501,13 @@ func (tr *tracer) run(rng *rand.Rand, nthreads, nops int, engine string) {
 	}
 	rt := wazero.NewRuntimeWithConfig(ctx, cfg)
 	compiled, err := rt.CompileModule(ctx, emptyWasm)
+	if err != nil {
+		common.Fatalf("compile: %v", err)
+	}
+	if err := addBoom(ctx, rt); err != nil {
+		common.Fatalf("host module: %v", err)
+	}
+	compiledExit, err := rt.CompileModule(ctx, startExitWasm(false))
 	if err != nil {
 		common.Fatalf("compile: %v", err)
 	}
@@ -485,11 +544,15 @@ func (tr *tracer) run(rng *rand.Rand, nthreads, nops int, engine string) {
 					if want {
 						ictx = experimental.WithCloseNotifier(ctx, &counter{})
 					}
-					tr.begin(t, "inst", name, want, 0)
+					code, start := compiled, "none"
+					if r.Intn(4) == 0 {
+						code, start = compiledExit, "exit"
+					}
+					tr.beginInst(t, name, want, start)
 					var mod api.Module
 					res := protect(func() string {
 						var err error
-						mod, err = rt.InstantiateModule(ictx, compiled, wazero.NewModuleConfig().WithName(name))
+						mod, err = rt.InstantiateModule(ictx, code, wazero.NewModuleConfig().WithName(name))
 						return classify(err)
 					})
 					mid := 0
